@@ -113,6 +113,21 @@ def poloidal(chk):
     env = {"eta_vals": eta_grid_tag(), "splines": OTHER, "constants": ("constants",), "nulEdge": OTHER,
            "explicitTrap": OTHER, "tol": OTHER}
     attrs, _ = I.ctor_attrs(chk, U.ADV, "PoloidalAdvection", env)
+    cache_tags = {}
+    # the per-plane potential splines are distinct objects (a cache written by gridStep and read again later)
+    init = chk.func(U.ADV, "PoloidalAdvection.__init__")
+    ps = [n for n in ast.walk(init) if isinstance(n, ast.Assign) and src(n.targets[0]) == "self._phiSplines"]
+    okc, bad = False, None
+    if ps:
+        v = ps[0].value
+        if isinstance(v, ast.ListComp) and isinstance(v.elt, ast.Call) and src(v.elt.func) == "Spline2D":
+            okc = True
+        elif isinstance(v, ast.BinOp) and isinstance(v.op, ast.Mult):
+            bad = (f"`{src(v)[:70]}` repeats ONE spline object for every z plane: the plane interpolated last overwrites all "
+                   "others, so a later gridStep_SplinesUnchanged advects every plane with the last plane's potential")
+    chk.pat("C-cache-distinct", ps[0] if ps else init, "self._phiSplines = [Spline2D(...) for each z plane]", okc,
+            "one spline object per z plane: the potential splines computed by gridStep survive until gridStep_SplinesUnchanged", bad,
+            file=U.ADV, func="PoloidalAdvection.__init__")
     for m in ("gridStep", "gridStep_SplinesUnchanged"):
         fn = chk.func(U.ADV, f"PoloidalAdvection.{m}")
         amb = I.ambient_from_asserts(fn)
@@ -127,8 +142,11 @@ def poloidal(chk):
                    "relation between the layouts of grid and phi is no longer asserted", file=U.ADV, func=f"PoloidalAdvection.{m}")
             env2["phi"] = grid_param(op or o[1:], 1)
         ctx = Ctx(dist_dims=dist_dims(o, 2))
-        I.run_method(chk, U.ADV, "PoloidalAdvection", m, env2, ctx, dict(attrs),
-                     {"step": {"params": ["f", "dt", "phi", "v"], "req": {}}})
+        an = I.run_method(chk, U.ADV, "PoloidalAdvection", m, env2, ctx, dict(attrs),
+                          {"step": {"params": ["f", "dt", "phi", "v"], "req": {}}})
+        for n_ in ast.walk(fn):
+            if isinstance(n_, ast.Subscript) and src(n_.value) == "self._phiSplines":
+                cache_tags.setdefault(m, []).append((n_, an.node_tags.get(id(n_.slice))))
         # v handed to step is the coordinate of the slice's own v (getCoords(0) in (3,2,1,0))
         for lp in [n for n in ast.walk(fn) if isinstance(n, ast.For) and src(n.iter) == "grid.getCoords(0)"]:
             vname = lp.target.elts[1].id if isinstance(lp.target, ast.Tuple) and isinstance(lp.target.elts[1], ast.Name) else None
@@ -144,6 +162,20 @@ def poloidal(chk):
                     chk.ob("C-coordinate-role", c, f"step(slice(i, j), dt, phiSplines[j], v) in {m}", okv and okz,
                            "the velocity is the slice's own v coordinate and the potential spline is the one of the slice's own z plane"
                            if okv and okz else f"velocity ok={okv}, potential plane ok={okz}", file=U.ADV, func=f"PoloidalAdvection.{m}")
+    # writer (gridStep) and reader (gridStep_SplinesUnchanged) of the cache use the same index space
+    tags = {(m, I.tname(t) if t else "?") for m, lst in cache_tags.items() for _, t in lst}
+    kinds = {t for _, t in tags}
+    node = cache_tags.get("gridStep_SplinesUnchanged", [(None, None)])[0][0] or chk.func(U.ADV, "PoloidalAdvection.gridStep")
+    if len(cache_tags) == 2 and "?" not in kinds and "('other',)" not in kinds:
+        ok = len(kinds) == 1
+        chk.ob("C-cache-index-space", node, "self._phiSplines[...] in gridStep / gridStep_SplinesUnchanged", ok,
+               f"the cache is written and read with {sorted(kinds)[0]}" if ok else
+               f"the cache is indexed inconsistently: {sorted(tags)} - after gridStep, gridStep_SplinesUnchanged reads the splines of other "
+               "z planes whenever z is distributed", file=U.ADV, func="PoloidalAdvection.gridStep_SplinesUnchanged")
+    else:
+        chk.ob("C-cache-index-space", node, "self._phiSplines[...] in gridStep / gridStep_SplinesUnchanged", None,
+               f"index spaces of the cache subscripts not determined: {sorted(tags)}", file=U.ADV,
+               func="PoloidalAdvection.gridStep_SplinesUnchanged")
     return attrs
 
 
